@@ -440,6 +440,24 @@ func c13Run(c *fw.Ctx) {
 			}
 		}
 	}
+	// per-connection user data across AUTH attempts of every form (the handler stores its tag at
+	// the first call and must find it at every later one)
+	for _, password := range []bool{false, true} {
+		if !c.Mine() {
+			continue
+		}
+		var scripts [][][]string
+		for i := 0; i < 2; i++ {
+			k := "k" + strconv.Itoa(i)
+			sc := [][]string{{"GET", k}, {"AUTH", "admin", "wrong"}, {"GET", k}, {"AUTH", "wrong"}, {"GET", k}, {"AUTH", "default", c13Pass}, {"GET", k}, {"AUTH", c13Pass}, {"GET", k}}
+			if password {
+				sc = append([][]string{{"AUTH", c13Pass}}, sc...)
+			}
+			scripts = append(scripts, sc)
+		}
+		c13Explore(c, c13Case{Kind: "sched", Scripts: scripts[:1], Password: password, Reconn: []int{0}}, 2)
+		c13Explore(c, c13Case{Kind: "sched", Scripts: scripts, Password: password, Reconn: []int{0, 0}}, 1)
+	}
 	// the required password removed and replaced while an unauthenticated connection is open
 	if c.Mine() {
 		for _, sc := range [][][]string{
